@@ -1,4 +1,7 @@
-//! C08: not implemented yet.
+//! C08: the btor2 reader gives every construct its btor2 meaning (harness module: to be completed).
+//! Hosts the shared btor2 generator module used by C08, C09 and C18.
+#[path = "btorgen.rs"]
+pub mod btorgen;
 use crate::util::Args;
 
 pub fn run(_args: &Args) {
